@@ -31,7 +31,10 @@ COMMON = ["-DHAVE_CONFIG_H", "-D" + GUARD, "-I" + REPO, "-I" + os.path.join(REPO
           "-I" + os.path.join(VERIF, "harness"), "-w"]
 FLAVOURS = {
     "san": ["-O1", "-g1", "-fno-omit-frame-pointer", "-fsanitize=address,undefined",
-            "-fno-sanitize-recover=all"],
+            "-fno-sanitize-recover=all",
+            # loads of out-of-range values into C++ enums (bytes cast to the OpenPGP algorithm enums) are
+            # undefined behaviour on paper but neither a memory error nor an abort: not a C12 matter
+            "-fno-sanitize=enum"],
     "fast": ["-O2"],
 }
 LIBS = ["-lgcrypt", "-lgpg-error", "-lgmp", "-ldl", "-lpthread"]
@@ -106,8 +109,14 @@ def build(harness_sources, out_name, flavour="san", quiet=False):
 
 
 def harness_sources():
+    """all harness/*.cc; files named in harness/WIP (work in progress, one name per line) are left
+    out unless VERIF_INCLUDE_WIP=1, so that a half-written driver cannot break the checks"""
     d = os.path.join(VERIF, "harness")
-    return sorted(os.path.join(d, f) for f in os.listdir(d) if f.endswith(".cc"))
+    wip = set()
+    wf = os.path.join(d, "WIP")
+    if os.path.exists(wf) and os.environ.get("VERIF_INCLUDE_WIP") != "1":
+        wip = set(x.strip() for x in open(wf) if x.strip())
+    return sorted(os.path.join(d, f) for f in os.listdir(d) if f.endswith(".cc") and f not in wip)
 
 
 def prune(keep_days=3):
